@@ -19,18 +19,67 @@ PICKLE_ARMED = {
 }
 
 
+# ------------------------------------------------------------------------------- closures of helper functions
+def closure(ctx, fi, prefix="hypergraphx.readwrite", limit=40):
+    """`fi` and the module-level helpers of the readwrite package it (transitively) calls - a reader / writer that was
+    split into helpers is still analysed as a whole."""
+    out, todo = [fi], [fi]
+    while todo and len(out) < limit:
+        f = todo.pop()
+        for n in ast.walk(f.node):
+            if isinstance(n, ast.Call):
+                for c in ctx.callees(f, n):
+                    if c.module.name.startswith(prefix) and c not in out:
+                        out.append(c)
+                        todo.append(c)
+    return out
+
+
+def _module_tables(fis) -> Dict[str, Set[str]]:
+    """container class names paired with their own name in a module-level literal of the analysed modules:
+    (("Hypergraph", Hypergraph), ...) or {"Hypergraph": Hypergraph, ...} -> {"Hypergraph": {"Hypergraph"}}"""
+    out: Dict[str, Set[str]] = {}
+    seen = set()
+    for fi in fis:
+        m = fi.module
+        if m.name in seen:
+            continue
+        seen.add(m.name)
+        for st in m.tree.body:
+            if not isinstance(st, (ast.Assign, ast.AnnAssign)) or st.value is None:
+                continue
+            for n in ast.walk(st.value):
+                pairs = []
+                if isinstance(n, ast.Tuple) and len(n.elts) >= 2 and isinstance(n.elts[0], ast.Constant) and isinstance(n.elts[0].value, str):
+                    pairs = [(n.elts[0].value, x) for x in n.elts[1:]]
+                elif isinstance(n, ast.Dict):
+                    pairs = [(k.value, v) for k, v in zip(n.keys, n.values) if isinstance(k, ast.Constant) and isinstance(k.value, str)]
+                for name, v in pairs:
+                    if name in T.CONTAINERS:
+                        out.setdefault(name, set()).update(x.id for x in ast.walk(v) if isinstance(x, ast.Name) and x.id in T.CONTAINERS)
+    return out
+
+
 # ------------------------------------------------------------------------------- type dispatch
-def type_branches(fn: ast.AST, var_names=("hypergraph_type", "h_type")) -> Dict[str, List[ast.stmt]]:
-    """type name -> statements executed when the dispatch variable equals it (If/elif chains on `var == 'X'` / `var in [...]`)."""
+def type_branches(fn: ast.AST, var_names=None) -> Dict[str, List[ast.stmt]]:
+    """type name -> statements executed when the dispatch value equals it (If/elif chains on `x == 'X'` / `x in [...]`
+    where the constants are container class names)."""
     out: Dict[str, List[ast.stmt]] = {}
 
     def names_of(test) -> Optional[Set[str]]:
-        if isinstance(test, ast.Compare) and len(test.ops) == 1 and isinstance(test.left, ast.Name) and test.left.id in var_names:
+        if isinstance(test, ast.Compare) and len(test.ops) == 1 and isinstance(test.left, (ast.Name, ast.Subscript, ast.Attribute)):
+            if var_names is not None and not (isinstance(test.left, ast.Name) and test.left.id in var_names):
+                return None
             r = test.comparators[0]
-            if isinstance(test.ops[0], ast.Eq) and isinstance(r, ast.Constant) and isinstance(r.value, str):
+            if isinstance(test.ops[0], ast.Eq) and isinstance(r, ast.Constant) and isinstance(r.value, str) and r.value in T.CONTAINERS:
                 return {r.value}
-            if isinstance(test.ops[0], ast.In) and isinstance(r, (ast.List, ast.Tuple, ast.Set)) and all(isinstance(e, ast.Constant) for e in r.elts):
+            if isinstance(test.ops[0], ast.In) and isinstance(r, (ast.List, ast.Tuple, ast.Set)) and r.elts and all(isinstance(e, ast.Constant) and e.value in T.CONTAINERS for e in r.elts):
                 return {e.value for e in r.elts}
+        if isinstance(test, ast.Call) and isinstance(test.func, ast.Name) and test.func.id == "isinstance" and len(test.args) == 2:
+            r = test.args[1]
+            elts = r.elts if isinstance(r, ast.Tuple) else [r]
+            if elts and all(isinstance(e, ast.Name) and e.id in T.CONTAINERS for e in elts):
+                return {e.id for e in elts}
         return None
 
     def visit(stmts, active: Optional[Set[str]]):
@@ -59,6 +108,45 @@ def type_branches(fn: ast.AST, var_names=("hypergraph_type", "h_type")) -> Dict[
     return out
 
 
+class Dispatch:
+    """Type dispatch of a reader / writer over its closure of helpers."""
+
+    def __init__(self, ctx, fi):
+        self.ctx, self.fi = ctx, fi
+        self.fis = closure(ctx, fi)
+        self.branches: Dict[str, List[Tuple[object, ast.stmt]]] = {}  # type -> [(function, statement)]
+        for f in self.fis:
+            for t, stmts in type_branches(f.node).items():
+                self.branches.setdefault(t, []).extend((f, st) for st in stmts)
+        self.tables = _module_tables(self.fis)
+        self.handled = set(self.branches) | set(self.tables)
+
+    def stmts(self, t) -> List[ast.stmt]:
+        return [st for _, st in self.branches.get(t, [])]
+
+    def stmts_with_helpers(self, t) -> Tuple[List[ast.AST], bool]:
+        """statements of the branch for `t` plus the bodies of the readwrite helpers called from it; second value:
+        whether such helpers exist (then facts about the branch may live in code shared with other branches)"""
+        out = list(self.stmts(t))
+        helpers = []
+        for f, st in self.branches.get(t, []):
+            for n in ast.walk(st):
+                if isinstance(n, ast.Call):
+                    for c in self.ctx.callees(f, n):
+                        if c.module.name.startswith("hypergraphx.readwrite") and c not in helpers:
+                            helpers.append(c)
+        for h in helpers:
+            out.extend(h.node.body)
+        return out, bool(helpers)
+
+    def classes_in(self, t) -> Set[str]:
+        """container classes named in the branch for `t` (constructed there, or handed to a helper that constructs)"""
+        names = {x.id for st in self.stmts(t) for x in ast.walk(st) if isinstance(x, ast.Name) and isinstance(x.ctx, ast.Load) and x.id in T.CONTAINERS}
+        if not names:
+            names = {x.id for st in self.stmts_with_helpers(t)[0] for x in ast.walk(st) if isinstance(x, ast.Name) and isinstance(x.ctx, ast.Load) and x.id in T.CONTAINERS}
+        return names | self.tables.get(t, set())
+
+
 def _const_subscript_stores(stmts, var: str) -> Set[str]:
     out = set()
     for st in stmts:
@@ -82,58 +170,119 @@ def _const_gets(stmts) -> Set[str]:
     return out
 
 
+def _loop_vars(fis) -> Dict[int, Set[str]]:
+    """per function (id of its node): names bound by `for x in <...>` / comprehensions - the records of a record list"""
+    out: Dict[int, Set[str]] = {}
+    for f in fis:
+        names = set()
+        for n in ast.walk(f.node):
+            if isinstance(n, (ast.For, ast.comprehension)) and isinstance(n.target, ast.Name):
+                names.add(n.target.id)
+        out[id(f.node)] = names
+    return out
+
+
+def _record_keys_read(fis) -> Set[str]:
+    """constant keys looked up on a record (a loop variable): r["k"], r.get("k"), "k" in r"""
+    out = set()
+    lv = _loop_vars(fis)
+    for f in fis:
+        names = lv[id(f.node)]
+        for n in ast.walk(f.node):
+            if isinstance(n, ast.Subscript) and isinstance(n.slice, ast.Constant) and isinstance(n.slice.value, str) and isinstance(n.value, ast.Name) and n.value.id in names:
+                out.add(n.slice.value)
+            if isinstance(n, ast.Compare) and len(n.ops) == 1 and isinstance(n.ops[0], (ast.In, ast.NotIn)) and isinstance(n.left, ast.Constant) and isinstance(n.left.value, str) and isinstance(n.comparators[0], ast.Name) and n.comparators[0].id in names:
+                out.add(n.left.value)
+            if isinstance(n, ast.Call) and isinstance(n.func, ast.Attribute) and n.func.attr == "get" and n.args and isinstance(n.args[0], ast.Constant) and isinstance(n.args[0].value, str) and isinstance(n.func.value, ast.Name) and n.func.value.id in names:
+                out.add(n.args[0].value)
+    return out
+
+
 def check_json_schema(ctx, res: Result):
     save = ctx.require("save.save_hypergraph")
     load = ctx.require("load.load_hypergraph")
-    sb = type_branches(save.node)
-    lb = type_branches(load.node)
-    containers = set(T.CONTAINERS)
-    # ---- S-DISPATCH
-    res.check(set(sb) == containers, "S-DISPATCH", save.short, "type dispatch", "save", f"save_hypergraph handles {sorted(sb)}; the exported container classes are {sorted(containers)}", loc(save, save.node))
-    res.check(set(lb) >= containers, "S-DISPATCH", load.short, "type dispatch", "load-json", f"load_hypergraph (json) handles {sorted(lb)}; the exported container classes are {sorted(containers)}", loc(load, load.node))
     lp = ctx.require("load._load_pickle")
-    pb = type_branches(lp.node)
-    res.check(set(pb) == containers, "S-DISPATCH", lp.short, "type dispatch", "load-pickle", f"_load_pickle handles {sorted(pb)}; the exported container classes are {sorted(containers)}", loc(lp, lp.node))
-    for t, stmts in pb.items():
-        ctor = [n for st in stmts for n in ast.walk(st) if isinstance(n, ast.Call) and isinstance(n.func, ast.Name) and n.func.id in containers]
-        res.check(any(c.func.id == t for c in ctor) and all(c.func.id == t for c in ctor), "S-DISPATCH", lp.short, f"{t} branch", "constructs-same-type", f"the pickle branch for {t} constructs another class", loc(lp, stmts[0] if stmts else lp.node))
-    for t, stmts in lb.items():
-        if t not in containers:
+    sd, ld, pd = Dispatch(ctx, save), Dispatch(ctx, load), Dispatch(ctx, lp)
+    containers = set(T.CONTAINERS)
+    # ---- S-DISPATCH: a recognised dispatch that leaves out an exported class is wrong; none recognised -> unknown
+    for d, fi, tag, exact in ((sd, save, "save", True), (ld, load, "load-json", False), (pd, lp, "load-pickle", True)):
+        if not d.handled:
+            res.unknown("S-DISPATCH", fi.short, "type dispatch", tag, "no dispatch on the container type was recognised", loc(fi, fi.node))
             continue
-        ctor = [n for st in stmts for n in ast.walk(st) if isinstance(n, ast.Call) and isinstance(n.func, ast.Name) and n.func.id in containers]
-        res.check(any(c.func.id == t for c in ctor), "S-DISPATCH", load.short, f"{t} branch", "constructs-same-type", f"the json branch for {t} does not construct a {t}", loc(load, stmts[0] if stmts else load.node))
+        missing = containers - d.handled
+        res.check(not missing, "S-DISPATCH", fi.short, "type dispatch", tag, f"{fi.short} handles {sorted(d.handled)}; the exported container classes are {sorted(containers)}", loc(fi, fi.node))
+    for d, fi, what in ((pd, lp, "pickle"), (ld, load, "json")):
+        for t in sorted(d.handled & containers):
+            cl = d.classes_in(t)
+            where = loc(fi, d.stmts(t)[0]) if d.stmts(t) else loc(fi, fi.node)
+            if not cl:
+                res.unknown("S-DISPATCH", fi.short, f"{t} branch", "constructs-same-type", f"no container class is named in the {what} branch for {t}", where)
+            else:
+                res.check(t in cl and (what == "json" or cl == {t}), "S-DISPATCH", fi.short, f"{t} branch", "constructs-same-type", f"the {what} branch for {t} constructs {sorted(cl)}", where)
     # ---- S-JSONKEYS: reserved keys written == reserved keys read, per type
     for t in sorted(containers):
-        if t not in sb or t not in lb:
-            continue
-        written = set()
-        for var in _metadata_vars(sb[t]):
-            written |= _const_subscript_stores(sb[t], var)
-        written |= _dict_display_reserved(sb[t])
-        read = _const_gets(lb[t])
         want = RESERVED[t]
-        res.check(written == want, "S-JSONKEYS", save.short, f"{t}: reserved keys written {sorted(written)}", "written", f"the text writer stores {sorted(written)} next to the metadata of a {t} hyperedge; the format reserves {sorted(want)}", loc(save, sb[t][0] if sb[t] else save.node))
-        res.check(read == want, "S-JSONKEYS", load.short, f"{t}: reserved keys read {sorted(read)}", "read", f"the text reader reads {sorted(read)} from the metadata of a {t} hyperedge; the writer stores {sorted(want)}", loc(load, lb[t][0] if lb[t] else load.node))
-    # ---- record keys: writer dict displays vs reader subscripts
+        if sd.stmts(t):
+            stmts, helpers = sd.stmts_with_helpers(t)
+            written = set()
+            for var in _metadata_vars(stmts):
+                written |= _const_subscript_stores(stmts, var)
+            written |= _dict_display_reserved(stmts)
+            where = loc(save, sd.stmts(t)[0])
+            extra, missing = written - want, want - written
+            if extra:
+                res.violation("S-JSONKEYS", save.short, f"{t}: reserved keys written {sorted(written)}", "written", f"the text writer stores {sorted(written)} next to the metadata of a {t} hyperedge; the format reserves {sorted(want)}", where)
+            elif missing and not helpers and written:
+                res.violation("S-JSONKEYS", save.short, f"{t}: reserved keys written {sorted(written)}", "written", f"the text writer stores {sorted(written)} next to the metadata of a {t} hyperedge; the format reserves {sorted(want)}", where)
+            elif missing:
+                res.unknown("S-JSONKEYS", save.short, f"{t}: reserved keys written {sorted(written)}", "written", f"writes of {sorted(missing)} were not recognised in the branch for {t}", where)
+            else:
+                res.ok("S-JSONKEYS", save.short, f"{t}: reserved keys written {sorted(written)}", "written", where)
+        else:
+            res.unknown("S-JSONKEYS", save.short, f"{t}: reserved keys written", "written", f"no branch of the writer is specific to {t}", loc(save, save.node))
+        if ld.stmts(t):
+            stmts, helpers = ld.stmts_with_helpers(t)
+            read = _const_gets(stmts)
+            where = loc(load, ld.stmts(t)[0])
+            extra, missing = read - want, want - read
+            if extra:
+                res.violation("S-JSONKEYS", load.short, f"{t}: reserved keys read {sorted(read)}", "read", f"the text reader reads {sorted(read)} from the metadata of a {t} hyperedge; the writer stores {sorted(want)}", where)
+            elif missing and not helpers and read:
+                res.violation("S-JSONKEYS", load.short, f"{t}: reserved keys read {sorted(read)}", "read", f"the text reader reads {sorted(read)} from the metadata of a {t} hyperedge; the writer stores {sorted(want)}", where)
+            elif missing:
+                res.unknown("S-JSONKEYS", load.short, f"{t}: reserved keys read {sorted(read)}", "read", f"reads of {sorted(missing)} were not recognised in the branch for {t}", where)
+            else:
+                res.ok("S-JSONKEYS", load.short, f"{t}: reserved keys read {sorted(read)}", "read", where)
+        else:
+            res.unknown("S-JSONKEYS", load.short, f"{t}: reserved keys read", "read", f"no branch of the reader is specific to {t}", loc(load, load.node))
+    # ---- record keys: writer dict displays vs reader lookups on records
     wkeys = set()
-    for n in ast.walk(save.node):
-        if isinstance(n, ast.Dict) and n.keys and all(isinstance(k, ast.Constant) and isinstance(k.value, str) for k in n.keys if k is not None):
-            ks = {k.value for k in n.keys if k is not None}
-            if ks & {"type", "hypergraph_type"}:
-                wkeys |= ks
-    rkeys = set()
-    for n in ast.walk(load.node):
-        if isinstance(n, ast.Subscript) and isinstance(n.slice, ast.Constant) and isinstance(n.slice.value, str) and isinstance(n.value, ast.Name) and n.value.id in ("data", "node", "edge"):
-            rkeys.add(n.slice.value)
-        if isinstance(n, ast.Compare) and len(n.ops) == 1 and isinstance(n.ops[0], ast.In) and isinstance(n.left, ast.Constant) and isinstance(n.left.value, str) and isinstance(n.comparators[0], ast.Name) and n.comparators[0].id == "data":
-            rkeys.add(n.left.value)
-    res.check(rkeys <= wkeys, "S-JSONKEYS", load.short, f"record keys read {sorted(rkeys)}", "record-keys", f"the reader reads record keys {sorted(rkeys - wkeys)} that the writer never writes (writer: {sorted(wkeys)})", loc(load, load.node))
-    res.check(wkeys <= rkeys, "S-JSONKEYS", save.short, f"record keys written {sorted(wkeys)}", "record-keys", f"the writer writes record keys {sorted(wkeys - rkeys)} that the reader never reads", loc(save, save.node))
+    wdicts = []
+    for f in sd.fis:
+        for n in ast.walk(f.node):
+            if isinstance(n, ast.Dict) and n.keys and all(isinstance(k, ast.Constant) and isinstance(k.value, str) for k in n.keys if k is not None):
+                ks = {k.value for k in n.keys if k is not None}
+                if ks & {"type", "hypergraph_type"}:
+                    wkeys |= ks
+                    wdicts.append(n)
+    rkeys = _record_keys_read(ld.fis)
+    if not wkeys or not rkeys:
+        res.unknown("S-JSONKEYS", save.short, "record keys", "record-keys", f"record displays of the writer ({sorted(wkeys)}) / record lookups of the reader ({sorted(rkeys)}) not recognised", loc(save, save.node))
+    else:
+        res.check(rkeys <= wkeys, "S-JSONKEYS", load.short, f"record keys read {sorted(rkeys)}", "record-keys", f"the reader reads record keys {sorted(rkeys - wkeys)} that the writer never writes (writer: {sorted(wkeys)})", loc(load, load.node))
+        res.check(wkeys <= rkeys, "S-JSONKEYS", save.short, f"record keys written {sorted(wkeys)}", "record-keys", f"the writer writes record keys {sorted(wkeys - rkeys)} that the reader never reads", loc(save, save.node))
     # node / edge record discriminators
     for val in ("node", "edge"):
-        w = any(isinstance(n, ast.Dict) and any(isinstance(k, ast.Constant) and k.value == "type" and isinstance(v, ast.Constant) and v.value == val for k, v in zip(n.keys, n.values)) for n in ast.walk(save.node))
-        r = any(isinstance(n, ast.Compare) and isinstance(n.comparators[0], ast.Constant) and n.comparators[0].value == val and isinstance(n.left, ast.Subscript) and isinstance(n.left.slice, ast.Constant) and n.left.slice.value == "type" for n in ast.walk(load.node))
-        res.check(w and r, "S-JSONKEYS", save.short, f'"type": "{val}"', "discriminator", f"record type `{val}` is not both written and recognised", loc(save, save.node))
+        w = any(any(isinstance(k, ast.Constant) and k.value == "type" and isinstance(v, ast.Constant) and v.value == val for k, v in zip(n.keys, n.values)) for n in wdicts)
+        r = any(isinstance(n, ast.Compare) and isinstance(n.comparators[0], ast.Constant) and n.comparators[0].value == val and isinstance(n.left, ast.Subscript) and isinstance(n.left.slice, ast.Constant) and n.left.slice.value == "type" for f in ld.fis for n in ast.walk(f.node))
+        others_w = {v.value for n in wdicts for k, v in zip(n.keys, n.values) if isinstance(k, ast.Constant) and k.value == "type" and isinstance(v, ast.Constant)}
+        others_r = {n.comparators[0].value for f in ld.fis for n in ast.walk(f.node) if isinstance(n, ast.Compare) and isinstance(n.comparators[0], ast.Constant) and isinstance(n.left, ast.Subscript) and isinstance(n.left.slice, ast.Constant) and n.left.slice.value == "type"}
+        if w and r:
+            res.ok("S-JSONKEYS", save.short, f'"type": "{val}"', "discriminator", loc(save, save.node))
+        elif (others_w and others_r) and (w or r or others_w != others_r):
+            res.violation("S-JSONKEYS", save.short, f'"type": "{val}"', "discriminator", f"record type `{val}` is not both written and recognised (written: {sorted(others_w)}, recognised: {sorted(others_r)})", loc(save, save.node))
+        else:
+            res.unknown("S-JSONKEYS", save.short, f'"type": "{val}"', "discriminator", "record discriminators not recognised", loc(save, save.node))
 
 
 def _metadata_vars(stmts) -> Set[str]:
@@ -198,15 +347,38 @@ def check_reserved_win(ctx, res: Result):
         raise AnalysisError("save_hypergraph: no reserved-key write recognised (idiom changed)")
 
 
+def _str_consts(ctx, fi, expr, depth=0) -> Set[str]:
+    """string constants in `expr`, following calls of readwrite helpers into their bodies"""
+    out = {x.value for x in ast.walk(expr) if isinstance(x, ast.Constant) and isinstance(x.value, str)}
+    if depth < 2 and fi is not None:
+        for n in ast.walk(expr):
+            if isinstance(n, ast.Call):
+                for c in ctx.callees(fi, n):
+                    if c.module.name.startswith("hypergraphx.readwrite"):
+                        for st in c.node.body:
+                            if not (isinstance(st, ast.Expr) and isinstance(st.value, ast.Constant)):  # docstring
+                                out |= _str_consts(ctx, c, st, depth + 1)
+    return out
+
+
 def check_load_args(ctx, res: Result):
     """In every json branch the values handed to add_edge come from the record key of the same meaning."""
     load = ctx.require("load.load_hypergraph")
-    lb = type_branches(load.node)
-    SRC = {"interaction": "interaction", "weight": "weight", "time": "time", "layer": "layer", "metadata": "metadata"}
+    ld = Dispatch(ctx, load)
     POS = {"Hypergraph": ["edge", "weight", "metadata"], "DirectedHypergraph": ["edge", "weight", "metadata"], "TemporalHypergraph": ["edge", "time", "weight", "metadata"], "MultiplexHypergraph": ["edge", "layer", "weight", "metadata"]}
     ROLE_KEY = {"edge": "interaction", "weight": "weight", "time": "time", "layer": "layer", "metadata": "metadata"}
-    for t, stmts in lb.items():
-        if t not in T.CONTAINERS:
+    if not (ld.handled & set(T.CONTAINERS)):
+        res.unknown("S-LOADARGS", load.short, "type dispatch", "dispatch", "no dispatch on the container type was recognised in the json reader", loc(load, load.node))
+        return
+    owner = {}
+    for f in ld.fis:
+        for n in ast.walk(f.node):
+            owner[id(n)] = f
+    for t in sorted(ld.handled & set(T.CONTAINERS)):
+        stmts, helpers = ld.stmts_with_helpers(t)
+        first = loc(load, ld.stmts(t)[0]) if ld.stmts(t) else loc(load, load.node)
+        if not stmts:
+            res.unknown("S-LOADARGS", load.short, f"{t}: H.add_edge(...)", "exists", f"the statements that build a {t} were not located", first)
             continue
         defs: Dict[str, ast.AST] = {}
         for st in stmts:
@@ -214,60 +386,138 @@ def check_load_args(ctx, res: Result):
                 if isinstance(n, ast.Assign) and len(n.targets) == 1 and isinstance(n.targets[0], ast.Name):
                     defs[n.targets[0].id] = n.value
         calls = [n for st in stmts for n in ast.walk(st) if isinstance(n, ast.Call) and isinstance(n.func, ast.Attribute) and n.func.attr == "add_edge"]
-        res.check(bool(calls), "S-LOADARGS", load.short, f"{t}: H.add_edge(...)", "exists", f"the json branch for {t} never inserts the hyperedges", loc(load, stmts[0] if stmts else load.node))
+        if calls:
+            res.ok("S-LOADARGS", load.short, f"{t}: H.add_edge(...)", "exists", first)
+        elif helpers or any(isinstance(n, ast.Call) and isinstance(n.func, ast.Attribute) and n.func.attr == "add_edges" for st in stmts for n in ast.walk(st)):
+            res.unknown("S-LOADARGS", load.short, f"{t}: H.add_edge(...)", "exists", f"no add_edge call recognised in the json branch for {t}", first)
+        else:
+            res.violation("S-LOADARGS", load.short, f"{t}: H.add_edge(...)", "exists", f"the json branch for {t} never inserts the hyperedges", first)
         for c in calls:
+            cf = owner.get(id(c), load)
             bound = {}
             for name, a in zip(POS[t], c.args):
                 bound[name] = a
             for kw in c.keywords:
                 if kw.arg:
                     bound[kw.arg] = kw.value
+            opaque = any(kw.arg is None for kw in c.keywords) or any(isinstance(a, ast.Starred) for a in c.args)
             for role, a in bound.items():
                 want = ROLE_KEY.get(role)
                 if want is None:
                     continue
                 expr = defs.get(a.id, a) if isinstance(a, ast.Name) else a
-                consts = {x.value for x in ast.walk(expr) if isinstance(x, ast.Constant) and isinstance(x.value, str)}
-                ok = want in consts
-                res.check(ok, "S-LOADARGS", load.short, f"{t}: {norm(c)}", role, f"add_edge receives as `{role}` a value read from {sorted(consts)} instead of the record's `{want}`", loc(load, c))
+                consts = _str_consts(ctx, cf, expr)
+                others = consts & (set(ROLE_KEY.values()) - {want, "metadata"})
+                if want in consts:
+                    res.ok("S-LOADARGS", load.short, f"{t}: {norm(c)}", role, loc(cf, c))
+                elif others:
+                    res.violation("S-LOADARGS", load.short, f"{t}: {norm(c)}", role, f"add_edge receives as `{role}` a value read from {sorted(consts)} instead of the record's `{want}`", loc(cf, c))
+                else:
+                    res.unknown("S-LOADARGS", load.short, f"{t}: {norm(c)}", role, f"the source of `{role}` ({norm(expr)}) was not recognised", loc(cf, c))
             need = set(POS[t]) - {"metadata"}
             missing = need - set(bound)
-            res.check(not missing, "S-LOADARGS", load.short, f"{t}: {norm(c)}", "complete", f"add_edge is called without {sorted(missing)}", loc(load, c))
+            if not opaque:
+                res.check(not missing, "S-LOADARGS", load.short, f"{t}: {norm(c)}", "complete", f"add_edge is called without {sorted(missing)}", loc(cf, c))
         nodes = [n for st in stmts for n in ast.walk(st) if isinstance(n, ast.Call) and isinstance(n.func, ast.Attribute) and n.func.attr == "add_node"]
-        res.check(bool(nodes), "S-LOADARGS", load.short, f"{t}: H.add_node(...)", "nodes", f"the json branch for {t} never restores the nodes (isolated nodes are lost)", loc(load, stmts[0] if stmts else load.node))
+        if nodes:
+            res.ok("S-LOADARGS", load.short, f"{t}: H.add_node(...)", "nodes", first)
+        elif helpers or any(isinstance(n, ast.Call) and isinstance(n.func, ast.Attribute) and n.func.attr == "add_nodes" for st in stmts for n in ast.walk(st)):
+            res.unknown("S-LOADARGS", load.short, f"{t}: H.add_node(...)", "nodes", f"no add_node call recognised in the json branch for {t}", first)
+        else:
+            res.violation("S-LOADARGS", load.short, f"{t}: H.add_node(...)", "nodes", f"the json branch for {t} never restores the nodes (isolated nodes are lost)", first)
         for c in nodes:
-            consts = [[x.value for x in ast.walk(a) if isinstance(x, ast.Constant) and isinstance(x.value, str)] for a in c.args]
+            cf = owner.get(id(c), load)
+            args = list(c.args) + [kw.value for kw in c.keywords if kw.arg]
+            consts = [sorted(_str_consts(ctx, cf, defs.get(a.id, a) if isinstance(a, ast.Name) else a)) for a in args]
             ok = len(consts) >= 2 and "idx" in consts[0] and "metadata" in consts[1]
-            res.check(ok, "S-LOADARGS", load.short, f"{t}: {norm(c)}", "node-fields", "add_node does not receive (record['idx'], record['metadata'])", loc(load, c))
+            bad = len(consts) >= 2 and consts[0] and consts[1] and not ok
+            res.add("S-LOADARGS", load.short, f"{t}: {norm(c)}", "node-fields", "ok" if ok else ("violation" if bad else "unknown"), "" if ok else "add_node does not receive (record['idx'], record['metadata'])", loc(cf, c))
+
+
+def _exposed(ex) -> Tuple[Dict[str, str], Dict[str, ast.AST]]:
+    """(attribute -> key, key -> value expression) of the snapshot dict: the returned display, or a local dict filled
+    by constant-key stores / update()/dict(**) and returned"""
+    written: Dict[str, str] = {}
+    values: Dict[str, ast.AST] = {}
+
+    def display(d: ast.Dict):
+        for k, v in zip(d.keys, d.values):
+            if isinstance(k, ast.Constant):
+                values[k.value] = v
+                if is_self_attr(v):
+                    written[v.attr] = k.value
+
+    rets = [n for n in ast.walk(ex.node) if isinstance(n, ast.Return) and n.value is not None]
+    for r in rets:
+        if isinstance(r.value, ast.Dict):
+            display(r.value)
+        elif isinstance(r.value, ast.Name):
+            var = r.value.id
+            for n in ast.walk(ex.node):
+                if isinstance(n, ast.Assign) and len(n.targets) == 1:
+                    tg = n.targets[0]
+                    if isinstance(tg, ast.Name) and tg.id == var and isinstance(n.value, ast.Dict):
+                        display(n.value)
+                    if isinstance(tg, ast.Subscript) and isinstance(tg.value, ast.Name) and tg.value.id == var and isinstance(tg.slice, ast.Constant):
+                        values[tg.slice.value] = n.value
+                        if is_self_attr(n.value):
+                            written[n.value.attr] = tg.slice.value
+                if isinstance(n, ast.Call) and isinstance(n.func, ast.Attribute) and n.func.attr == "update" and isinstance(n.func.value, ast.Name) and n.func.value.id == var:
+                    for a in n.args:
+                        if isinstance(a, ast.Dict):
+                            display(a)
+                    for kw in n.keywords:
+                        if kw.arg:
+                            values[kw.arg] = kw.value
+                            if is_self_attr(kw.value):
+                                written[kw.value.attr] = kw.arg
+    return written, values
+
+
+def _restored(po) -> Dict[str, str]:
+    """attribute -> key for `self.<attr> = data.get("k", d)` / `data["k"]` / `<local helper>("k", d)` / setattr loops"""
+    read: Dict[str, str] = {}
+    local_helpers = {n.name for n in ast.walk(po.node) if isinstance(n, (ast.FunctionDef, ast.Lambda)) and n is not po.node and hasattr(n, "name")}
+    for n in ast.walk(po.node):
+        if isinstance(n, ast.Assign) and len(n.targets) == 1 and is_self_attr(n.targets[0]):
+            v = n.value
+            key = None
+            if isinstance(v, ast.Call) and isinstance(v.func, ast.Attribute) and v.func.attr in ("get", "pop") and v.args and isinstance(v.args[0], ast.Constant):
+                key = v.args[0].value
+            elif isinstance(v, ast.Call) and isinstance(v.func, ast.Name) and v.func.id in local_helpers and v.args and isinstance(v.args[0], ast.Constant):
+                key = v.args[0].value
+            elif isinstance(v, ast.Subscript) and isinstance(v.slice, ast.Constant):
+                key = v.slice.value
+            elif isinstance(v, ast.IfExp):
+                ks = {x.slice.value for x in ast.walk(v) if isinstance(x, ast.Subscript) and isinstance(x.slice, ast.Constant) and isinstance(x.slice.value, str)}
+                if len(ks) == 1:
+                    key = ks.pop()
+            if key is not None:
+                read[n.targets[0].attr] = key
+    return read
 
 
 def check_pickle(ctx, res: Result):
     for cls in T.CONTAINERS:
         ex = ctx.require(f"{cls}.expose_data_structures")
         po = ctx.require(f"{cls}.populate_from_dict")
-        written: Dict[str, str] = {}
-        for n in ast.walk(ex.node):
-            if isinstance(n, ast.Return) and isinstance(n.value, ast.Dict):
-                for k, v in zip(n.value.keys, n.value.values):
-                    if isinstance(k, ast.Constant) and is_self_attr(v):
-                        written[v.attr] = k.value
-        read: Dict[str, str] = {}
-        for n in ast.walk(po.node):
-            if isinstance(n, ast.Assign) and len(n.targets) == 1 and is_self_attr(n.targets[0]):
-                v = n.value
-                key = None
-                if isinstance(v, ast.Call) and isinstance(v.func, ast.Attribute) and v.func.attr == "get" and v.args and isinstance(v.args[0], ast.Constant):
-                    key = v.args[0].value
-                elif isinstance(v, ast.Subscript) and isinstance(v.slice, ast.Constant):
-                    key = v.slice.value
-                if key is not None:
-                    read[n.targets[0].attr] = key
+        written, values = _exposed(ex)
+        read = _restored(po)
         if not written or not read:
             raise AnalysisError(f"{cls}: expose_data_structures / populate_from_dict idiom not recognised")
+        # closed world: every statement of the two functions is one of the recognised forms
+        ex_open = _has_other_writes(ex)
+        po_open = any(isinstance(n, ast.Call) and isinstance(n.func, ast.Name) and n.func.id == "setattr" for n in ast.walk(po.node)) or any(isinstance(n, (ast.For, ast.While)) for n in ast.walk(po.node))
         for attr in PICKLE_ARMED[cls]:
             w, r = written.get(attr), read.get(attr)
-            res.check(w is not None, "S-PICKLE", ex.short, f"self.{attr}", "exposed", f"{attr} is not part of the binary snapshot", loc(ex, ex.node))
-            res.check(r is not None, "S-PICKLE", po.short, f"self.{attr}", "restored", f"{attr} is not restored from the binary snapshot", loc(po, po.node))
+            if w is not None:
+                res.ok("S-PICKLE", ex.short, f"self.{attr}", "exposed", loc(ex, ex.node))
+            else:
+                res.add("S-PICKLE", ex.short, f"self.{attr}", "exposed", "unknown" if ex_open else "violation", f"{attr} is not part of the binary snapshot", loc(ex, ex.node))
+            if r is not None:
+                res.ok("S-PICKLE", po.short, f"self.{attr}", "restored", loc(po, po.node))
+            else:
+                res.add("S-PICKLE", po.short, f"self.{attr}", "restored", "unknown" if po_open else "violation", f"{attr} is not restored from the binary snapshot", loc(po, po.node))
             if w is not None and r is not None:
                 res.check(w == r, "S-PICKLE", po.short, f"self.{attr}", "same-key", f"{attr} is saved under '{w}' but restored from '{r}'", loc(po, po.node))
         # no two attributes share a key
@@ -276,8 +526,26 @@ def check_pickle(ctx, res: Result):
             inv.setdefault(k, []).append(a)
         for k, attrs in inv.items():
             res.check(len(attrs) == 1, "S-PICKLE", po.short, f"data['{k}']", "unique", f"key '{k}' restores several attributes {attrs}", loc(po, po.node))
-        tv = [v for k, v in zip(*_ret_dict(ex)) if isinstance(k, ast.Constant) and k.value == "type"]
-        res.check(bool(tv) and isinstance(tv[0], ast.Constant) and tv[0].value == cls, "S-PICKLE", ex.short, '"type"', "type-tag", f"the snapshot of {cls} is tagged {norm(tv[0]) if tv else 'nothing'}", loc(ex, ex.node))
+        tv = values.get("type")
+        if tv is None:
+            res.add("S-PICKLE", ex.short, '"type"', "type-tag", "unknown" if ex_open else "violation", f"the snapshot of {cls} is tagged nothing", loc(ex, ex.node))
+        elif isinstance(tv, ast.Constant):
+            res.check(tv.value == cls, "S-PICKLE", ex.short, '"type"', "type-tag", f"the snapshot of {cls} is tagged {norm(tv)}", loc(ex, ex.node))
+        else:
+            good = norm(tv) in ("type(self).__name__", "self.__class__.__name__")
+            res.add("S-PICKLE", ex.short, '"type"', "type-tag", "ok" if good else "unknown", "" if good else f"type tag {norm(tv)} not recognised", loc(ex, ex.node))
+
+
+def _has_other_writes(ex) -> bool:
+    """the snapshot may be filled in ways the recognisers do not read (loops, ** unpacking, helper calls on the dict)"""
+    for n in ast.walk(ex.node):
+        if isinstance(n, (ast.For, ast.While, ast.DictComp)):
+            return True
+        if isinstance(n, ast.Dict) and any(k is None for k in n.keys):
+            return True
+        if isinstance(n, ast.Call) and isinstance(n.func, ast.Name) and n.func.id in ("vars", "dict", "getattr"):
+            return True
+    return False
 
 
 def _ret_dict(fi):
@@ -292,15 +560,21 @@ def check_hgr(ctx, res: Result):
     load = ctx.require("load.load_hypergraph")
     wl = el = None
     ctor = None
-    for n in ast.walk(load.node):
-        if isinstance(n, ast.Call) and isinstance(n.func, ast.Name) and n.func.id == "Hypergraph" and any(k.arg == "edge_list" for k in n.keywords):
-            ctor = n
+    for f in closure(ctx, load):
+        for n in ast.walk(f.node):
+            if isinstance(n, ast.Call) and isinstance(n.func, ast.Name) and n.func.id == "Hypergraph" and any(k.arg == "edge_list" for k in n.keywords):
+                ctor = n
+                load = f
     if ctor is None:
         raise AnalysisError("load_hypergraph: hgr constructor call not found")
     kw = {k.arg: k.value for k in ctor.keywords}
     el = kw.get("edge_list")
     wexpr = kw.get("weights")
-    wl_name = next((x.id for x in ast.walk(wexpr) if isinstance(x, ast.Name) and x.id != "mode"), None) if wexpr is not None else None
+    wl_name = None
+    if wexpr is not None:
+        # the list that is grown by the reader (not the flag of the conditional `w if weighted else None`)
+        grown = {n.func.value.id for n in ast.walk(load.node) if isinstance(n, ast.Call) and isinstance(n.func, ast.Attribute) and n.func.attr == "append" and isinstance(n.func.value, ast.Name)} | {n.target.id for n in ast.walk(load.node) if isinstance(n, ast.AugAssign) and isinstance(n.target, ast.Name)}
+        wl_name = next((x.id for x in ast.walk(wexpr) if isinstance(x, ast.Name) and x.id in grown), None)
     el_name = el.id if isinstance(el, ast.Name) else None
     res.check(wl_name is not None and el_name is not None, "S-HGR", load.short, norm(ctor), "ctor", "the hMETIS reader does not hand the edge list and the weight list to the constructor", loc(load, ctor))
     grows = {wl_name: [], el_name: []}
@@ -309,7 +583,7 @@ def check_hgr(ctx, res: Result):
             grows[n.target.id].append(n)
         if isinstance(n, ast.Call) and isinstance(n.func, ast.Attribute) and n.func.attr == "append" and isinstance(n.func.value, ast.Name) and n.func.value.id in grows:
             grows[n.func.value.id].append(n)
-    v = ctx.view("load.load_hypergraph")
+    v = ctx.view(load)
     for w in grows.get(wl_name, []):
         # some edge-list growth in the same block
         blk = v.parent.get(id(v.stmt_of(w)))
